@@ -438,3 +438,56 @@ def range_check(cx):
         okv = any(x[0] == "call" and x[1].endswith("RaftLog::term") and len(x[2]) == 2 and x[2][1][0] == "call" and x[2][1][1].endswith("RaftLog::last_index") for x in walk(v)) and v[0] in ("vfield", "call")
         ok = ok and okv
     cx.check(ok, "last_term", "last_term() = term(last_index()) through the log's own term() (which knows a pending snapshot) (found %s)" % "; ".join(show(v)[:80] for _, v, _ in rets)[:200])
+
+
+@obligation("CONFIG.election_range", ["C20", "C10"], floor=3, kind="return-path classification + value source",
+            why="the randomized election timeout is drawn from [min_election_tick(), max_election_tick()); validate() must reject an empty EFFECTIVE range (the raw fields use 0 for 'default'), else constructing the node panics in the sampler")
+def election_range(cx):
+    v = cx.fn("Config::validate")
+    g = cx.pg(v)
+
+    def eff(name):
+        return lambda e: e[0] == "call" and e[1].endswith("Config::" + name)
+    mn, mx = eff("min_election_tick"), eff("max_election_tick")
+    # every Ok return has passed `min_election_tick() < max_election_tick()` and `!(min_election_tick() < election_tick)`
+    def nonempty(l):
+        return l[0] == "is" and l[2] is True and l[1][0] == "bin" and l[1][1] == "Lt" and mn(l[1][2]) and mx(l[1][3])
+    def not_below(l):
+        return l[0] == "is" and l[2] is False and l[1][0] == "bin" and l[1][1] == "Lt" and mn(l[1][2]) and l[1][3][0] == "field" and l[1][3][2] == "Config.election_tick"
+    okb = [bi for bi in sorted(cx.prog.A(v).reach) if v.body.blocks[bi]["term"]["k"] == "return"]
+    # the Ok value is assigned in blocks; find assignments of Result::Ok to _0
+    oks = []
+    a = cx.prog.A(v)
+    for bi in sorted(a.reach):
+        for si, st in enumerate(v.body.blocks[bi]["stmts"]):
+            if st.get("k") == "assign" and st["place"]["l"] == 0 and not st["place"]["p"]:
+                e = a.expr_rvalue(st["rv"], (bi, si))
+                if e[0] == "adt" and e[1].endswith("Result::Ok"):
+                    oks.append((bi, si))
+    cx.check(bool(oks), "ok-sites", "validate() has a success path")
+    for at in oks:
+        ok1 = g.guarded(at, lambda lits: any(nonempty(l) for l in lits))[0]
+        ok2 = g.guarded(at, lambda lits: any(not_below(l) for l in lits))[0]
+        cx.check(ok1, "range:nonempty", "validate() succeeds only if min_election_tick() < max_election_tick() (the effective bounds, through the getters)")
+        cx.check(ok2, "range:not-below", "validate() succeeds only if min_election_tick() >= election_tick")
+    # the getters: 0 means "derive from election_tick"
+    for name, mult in (("min_election_tick", 1), ("max_election_tick", 2)):
+        f = cx.fn("Config::" + name)
+        rets = cx.pg(f).returns()
+        okg = len(rets) == 2
+        for lits, val, _ in rets:
+            zero = any(l[0] == "in" and l[2] == frozenset([0]) and l[1][0] == "field" and l[1][2] == "Config." + name for l in lits)
+            if zero:
+                if mult == 1:
+                    okg = okg and val[0] == "field" and val[2] == "Config.election_tick"
+                else:
+                    okg = okg and val[0] == "bin" and val[1] == "Mul" and ("int", 2) in val[2:4] and any(x[0] == "field" and x[2] == "Config.election_tick" for x in val[2:4])
+            else:
+                okg = okg and val[0] == "field" and val[2] == "Config." + name
+        cx.check(okg, "getter:" + name, "%s() = the field, or %s when the field is 0" % (name, "election_tick" if mult == 1 else "2 * election_tick"))
+    # the sampler draws from exactly those bounds
+    for f, bi, si, st in ctor_sites(cx, "raft::RaftCore"):
+        e = cx.prog.A(f).expr_rvalue(st["rv"], (bi, si))
+        d = dict(e[2])
+        okc = mn(d.get("min_election_timeout", ("?",))) and mx(d.get("max_election_timeout", ("?",)))
+        cx.check(okc, "wiring", "the node's timeout range is (config.min_election_tick(), config.max_election_tick()) (found %s, %s)" % (show(d.get("min_election_timeout", ("?",)))[:50], show(d.get("max_election_timeout", ("?",)))[:50]))
